@@ -9,7 +9,7 @@ def layoutPageOp (j : Json) : Json :=
   let W := worldOfJson j
   let page := jstrK j "page"
   let fill : Scope := toMapData W.P.cfg (valOfJson (jget j "data"))
-  let inherited : SlotScope := match W.files.lookup page with | some (_, dom) => extractPageSlots dom | none => []
+  let inherited : SlotScope := match W.files.lookup page with | some (_, dom) => extractPageSlots (assignSeenAttrs page dom) | none => []
   let DW : DWorld :=
     { config := [],
       fmOf := fun f => match W.files.lookup f with | some (fm, _) => fm | none => [],
